@@ -144,7 +144,16 @@ def audit(pid):
     return thms, assumptions
 
 
+def extract_imports():
+    """the .vo files driver/Extract.v imports (they must be consistent with the current Params.vo
+    whichever property is being checked)"""
+    t = open(os.path.join(DRIVER, "Extract.v")).read()
+    m = re.search(r"From SKV Require Import\s+(.*?)\.\s*\n", t, re.S)
+    return ["theories/%s.vo" % x.replace(".", "/") for x in m.group(1).split()] if m else []
+
+
 def build_driver():
+    coq_make(extract_imports())
     with Lock("driver"):
         src = [os.path.join(DRIVER, "Extract.v"), os.path.join(DRIVER, "main.ml")]
         vo = []
